@@ -149,6 +149,9 @@ class Server:
             src = src.replace("[common]\n", "[common]\n  product-type = \"%s\"\n" % product)
         if runtime_config:
             src = src.replace("[runtime-config]\n  enabled = false", "[runtime-config]\n  enabled = true")
+        # the Prometheus result cache on (it is off in the shipped file): a cached answer must not bypass authorization
+        src += ("\n[http.result-cache]\n  result-cache-enabled = true\n  split-queries-by-interval = \"5m\"\n  max-cache-freshness = \"1m\"\n"
+                "  cache-type = 0\n  memcache-size = 104857600\n  memcache-expiration = \"1h\"\n")
         open(os.path.join(self.dir, "conf.toml"), "w").write(src)
         open(os.path.join(self.dir, "overrides.yml"), "w").write("overrides: {}\n")
         self.log = open(os.path.join(self.dir, "server.log"), "w")
